@@ -82,8 +82,8 @@ CLAIMED.update({
         cat="model_checking", ref="DESIGN.md §7 C11",
         technique="TLC: deadlock freedom + <>AllDone under weak fairness on TreeBinLock.tla and Flurry.tla; cooperative scheduler makes blocking a state, runs validated against Trace_Live; step-level conformance of the recorded lock-word / waiter / park / unpark events with TreeBinLock.tla (Trace_TreeLock: no lost wake-up obligation per step)",
         text="(A) TLC exhaustively checks the tree-bin read-write lock protocol (writer, 2 readers, spurious wake-ups): mutual exclusion, no "
-             "deadlock / lost wake-up, termination under weak fairness; Flurry.tla is checked for <>AllDone under weak fairness of every thread on twenty programs "
-             "(initialisation race, reserve, overfull bins, helped resizes, clear()'s wait for the publication, retain, tree bins) with a deliberately wrong clear() that must violate it. (B) The real crate under the scheduler: every explored run of "
+             "deadlock / lost wake-up, termination under weak fairness; Flurry.tla is checked for <>AllDone under weak fairness of every thread on nineteen programs "
+             "(initialisation race, reserve, overfull bins, helped resizes, clear()'s wait for the publication, retain, tree bins) with a deliberately wrong clear() and a deliberately wrong try_presize that must violate it. (B) The real crate under the scheduler: every explored run of "
              "reader/writer mixes on tree bins, the initialisation race and resizing tables ends with all calls returned and nothing locked.",
         note="Fairness as the property assumes; park/unpark token semantics; hooks at every blocking site."),
     "C12": dict(
